@@ -1017,6 +1017,12 @@ func c09SweepItems(c *core.Ctx) []c09SweepItem {
 			// a length that needs the third, and one that needs the fourth length byte
 			out = append(out, c09SweepItem{name: rowTypeNames[t], cols: cols[2:3], maker: 3, rows: 1, huge: 1<<24 - 1})
 			out = append(out, c09SweepItem{name: rowTypeNames[t], cols: cols[3:4], maker: 3, rows: 1, huge: 1<<24 + 5})
+			// lengths whose low 16 bits are about to carry into the third
+			// length byte (2^16*k - 3 .. 2^16*k, k odd and even)
+			for _, l := range []int{131069, 131070, 131071, 131072, 196605, 196607, 262143} {
+				out = append(out, c09SweepItem{name: rowTypeNames[t], cols: cols[2:3], maker: 3, rows: 2, huge: l})
+				out = append(out, c09SweepItem{name: rowTypeNames[t], cols: cols[3:4], maker: 3, rows: 2, huge: l})
+			}
 		}
 	}
 	var fixed []c09Col
@@ -1375,7 +1381,7 @@ func c09Check(c *core.Ctx) {
 	c.SetRule("A case is one rows event written by the independent encoder and decoded with Rows(format, tableMap) (format and table map filled in by the harness from exported fields), " +
 		"then every image is walked with CellBytes the way the streamer does. Sections: 'sweep' enumerates each column type over its whole metadata domain in single-type tables " +
 		"(VARCHAR and VAR_STRING max 0..65535 and CHAR/BINARY 0..1023 with actual lengths {0,1,min(max,255),max}; ENUM 1..2 and SET 1..8 inside TypeString and bare; all 1580 DECIMAL (p,s); " +
-		"fsp 0..6 of TIMESTAMP2/DATETIME2/TIME2; BIT 1..64; blob family, GEOMETRY and JSON with 1..4 length bytes and lengths {0,1,255,256,65535,65536,70000} plus one 2^24-1 and one 2^24+5 byte value; the fixed-size types), " +
+		"fsp 0..6 of TIMESTAMP2/DATETIME2/TIME2; BIT 1..64; blob family, GEOMETRY and JSON with 1..4 length bytes and lengths {0,1,255,256,65535,65536,70000} plus one 2^24-1 and one 2^24+5 byte value and, for 3 and 4 length bytes, {131069..131072, 196605, 196607, 262143} (low 16 bits about to carry); the fixed-size types), " +
 		"each in the 9 variants {write,update,delete}x{v1 6-byte id, v1 4-byte id, v2} (quick: the 65536-value VARCHAR/VAR_STRING sweeps in one rotating variant, 8 declared lengths per event; thorough: all 9, 4 per event); " +
 		"'bits' enumerates for 1..6 columns every presence bitmap x every NULL bitmap (write/delete: every non-empty presence with all NULL patterns as the rows of one event; update: every (before,after) presence pair except both empty with all pairs of NULL patterns as rows) x the 3 formats; " +
 		"'struct' crosses column counts {7..20,63,64,65,250,251,252,300} x 9 presence classes x 8 NULL classes x 9 variants x 0..3 rows x v2 extra-data lengths {0,1,8,253,998}; " +
